@@ -201,7 +201,7 @@ Theorem C11_step_sound : forall d op out d', die_inv d -> step_ok d op out d' = 
        tiles (ground d') (bbox d) /\
        Forall (fun c => same_attrs (bbox d) c /\ rloc c = NOPOLY) (ground d')
    | OSplit _ _, Raised | OGrid _ _, Raised => d' = d
-   | ORead, Lists refin fixd => d' = d /\ refin = refinable d /\ fixd = fixedr d
+   | ORead, Lists refin fixd => d' = d /\ Permutation (refinable d) refin /\ Permutation (fixedr d) fixd
    | _, _ => False
    end) /\
   die_inv d'.
